@@ -254,7 +254,7 @@ NODE = [S + x for x in ["c09_node_k1", "c09_node_k2", "c09_node_k3", "c09_node_k
 DEPTH1 = [S + x for x in ["c09_depth1_k1", "c09_depth1_k2", "c09_depth1_k3", "c09_depth1_k5"]]
 QUIES = [S + x for x in ["c09_quiescence_1_1", "c09_quiescence_2_2_all", "c09_quiescence_2_2_mixed", "c09_quiescence_3_2_all", "c09_quiescence_3_2_mixed", "c09_quiescence_3_3_none"]]
 # cheap root / node harnesses (they return before the table is written)
-ENTRY_CHEAP = [S + x for x in ["c06_entry_k1", "c06_entry_k1_rep0", "c08_entry_killers_k2", "c08_entry_killers_k4", "c07_node_stopped"]]
+ENTRY_CHEAP = [S + x for x in ["c06_entry_k1", "c06_entry_k1_rep0", "c08_entry_killers_k2", "c08_entry_killers_k4", "c07_node_stopped", "c06_entry_k1_rep0_hit"]]
 ENTRY = [S + x for x in ["c06_entry_k0", "c06_entry_k0_cached", "c06_entry_k1_cached", "c06_entry_k2", "c06_entry_k2_rep",
                          "c06_entry_k3_cached1", "c06_entry_k4", "c06_entry_k4_cached3", "c06_entry_k4_rep", "c06_entry_k4_rep_cached1",
                          "c06_entry_k4_rep_other", "c06_entry_k5"]]
@@ -280,7 +280,7 @@ SYS = {
 }
 
 
-HEAVY = set(NODE + ENTRY + [S + "c18_driver_pv_k3"])
+HEAVY = set(NODE + ENTRY + [S + "c18_driver_pv_k3", S + "c06_entry_k1_rep0"])
 
 
 def _search_prop(pid, harnesses, functions, quick_heavy):
@@ -296,8 +296,8 @@ def _search_prop(pid, harnesses, functions, quick_heavy):
                       stubbed_prefixes=[S], sys_replays=SYS, functions=functions, bounds=SEARCH_BOUNDS, assumptions=SEARCH_ASSUME, native_replay=True)
 
 
-_search_prop("C06", ENTRY_CHEAP[:2] + ENTRY + DRIVER + NODE[:4], ["search::get_best_move_entry", "search::get_best_move_until_stop", "search::get_best_move_score (table entry it leaves)"], ["c06_entry_k4", "c06_entry_k1"])
-_search_prop("C07", ENTRY_CHEAP + ENTRY + DRIVER, ["search::get_best_move_entry (`?` propagation)", "search::get_best_move_until_stop"], ["c06_entry_k4"])
+_search_prop("C06", ENTRY_CHEAP[:1] + ENTRY_CHEAP[5:] + [S + "c06_entry_k1_rep0"] + ENTRY + DRIVER + NODE[:4], ["search::get_best_move_entry", "search::get_best_move_until_stop", "search::get_best_move_score (table entry it leaves)"], ["c06_entry_k4", "c06_entry_k1"])
+_search_prop("C07", [ENTRY_CHEAP[0]] + ENTRY_CHEAP[2:5] + ENTRY + DRIVER, ["search::get_best_move_entry (`?` propagation)", "search::get_best_move_until_stop"], ["c06_entry_k4"])
 _search_prop("C08", ENTRY_CHEAP[2:4] + DRIVER + ENTRY[4:8], ["search::get_best_move_until_stop", "search::get_best_move_entry (killer table it allocates)"], ["c06_entry_k2", "c08_driver_limit2_cached"])
 _search_prop("C09", NODE + DEPTH1 + QUIES + ENTRY[4:], ["search::get_best_move_score", "search::get_best_move_score_depth_1", "search::quiescence_search", "search::get_best_move_entry", "search::move_score (through the sort)", "Move::{is_tactical_move,index_history}"], ["c09_node_k4", "c06_entry_k4"])
 _search_prop("C10", NOMOVES + DRIVER + ENTRY_CHEAP[2:4] + ENTRY[:2], ["search::get_best_move_score (no-move rule)", "search::get_best_move_score_depth_1 (no-move rule)", "search::quiescence_search (no-move rule)", "search::get_best_move_until_stop (stop on mate score)", "search::get_best_move_entry (root without moves)"], ["c06_entry_k0"])
